@@ -53,6 +53,22 @@ pub fn exec(func: &str, a: &mut Args) -> String {
         "from_ball2" => { let d = a.f(); let r = a.f(); fmp2(&MP2::from_ball(d, r)) }
         "from_cuboid2" => { let d = a.f(); let he = d2::v(a); fmp2(&MP2::from_cuboid(d, he)) }
         "from_capsule2" => { let d = a.f(); let p = d2::p(a); let q = d2::p(a); let r = a.f(); fmp2(&MP2::from_capsule(d, p, q, r)) }
+        "from_compound2" => {
+            use crate::p2::shape::{Ball, Compound, ConvexPolygon, Cuboid, Shape, SharedShape};
+            let d = a.f(); let n = a.u();
+            let mut shapes: Vec<(d2::Isometry<f64>, SharedShape)> = Vec::new();
+            let mut rejected = false;
+            for _ in 0..n {
+                let m = d2::iso(a);
+                match a.u() {
+                    0 => { let r = a.f(); shapes.push((m, SharedShape::new(Ball::new(r)))); }
+                    1 => { let he = d2::v(a); shapes.push((m, SharedShape::new(Cuboid::new(he)))); }
+                    _ => { let v = pts2(a);
+                        match ConvexPolygon::from_convex_polyline_unmodified(v) { Some(p) => shapes.push((m, SharedShape::new(p))), None => rejected = true } }
+                }
+            }
+            if rejected || shapes.is_empty() { "none".into() } else { fmp2(&Compound::new(shapes).mass_properties(d)) }
+        }
         "mp2_new" => { let c = d2::p(a); let m = a.f(); let i = a.f(); let p = MP2::new(c, m, i);
             format!("{} {} {}", fmp2(&p), ff(p.mass()), ff(p.principal_inertia())) }
         "mp2_transform" => { let p = mp2(a); let m = d2::iso(a); fmp2(&p.transform_by(&m)) }
@@ -279,6 +295,22 @@ pub fn gen(r: &mut Rng, thorough: bool) -> Vec<(String, String)> {
         let k = r.below(6) as usize;
         let ms: Vec<MP2> = (0..k).map(|_| gen_mp2(r, lat)).collect();
         v.push(("mp2_sum".into(), format!("{} {}", k, ms.iter().map(hmp2).collect::<Vec<_>>().join(" "))));
+        // compound of 1..4 placed parts (ball / cuboid / CCW convex polygon), through `Shape::mass_properties`
+        { let np = 1 + r.below(4) as usize; let mut parts: Vec<String> = Vec::new();
+          for _ in 0..np {
+              let pm = d2::gen_iso(r, lat, if lat { 4.0 } else { 20.0 });
+              let body = match r.below(3) {
+                  0 => format!("0 {}", hx(r.pos_extent(lat))),
+                  1 => format!("1 {}", d2::hv(&d2::gen_he(r, lat))),
+                  _ => { let mut pv = gen_convex(r, false, thorough);
+                         // `from_convex_polyline_unmodified` wants counter-clockwise input
+                         let area2: f64 = (0..pv.len()).map(|i| { let (p, q) = (pv[i], pv[(i + 1) % pv.len()]); p.x * q.y - p.y * q.x }).sum();
+                         if area2 < 0.0 { pv.reverse(); }
+                         format!("2 {}", hpts(&pv)) }
+              };
+              parts.push(format!("{} {}", d2::hiso(&pm), body));
+          }
+          v.push(("from_compound2".into(), format!("{} {} {}", hx(d), np, parts.join(" ")))); }
         // ---------------- 3-D
         v.push(("from_ball3".into(), format!("{} {}", hx(d), hx(rad))));
         v.push(("from_cuboid3".into(), format!("{} {}", hx(d), d3::hv(&d3::gen_he(r, lat)))));
